@@ -214,12 +214,13 @@ impl TraversalMut for DfsEdge {
         DfsEdge {
             stack,
             last_push,
+            // a tree with n nodes has n - 1 edges
             size_lb: if root == tree.get_root_idx() {
-                tree.len()
+                tree.len().saturating_sub(1)
             } else {
                 0
             },
-            size_ub: tree.len(),
+            size_ub: tree.len().saturating_sub(1),
         }
     }
 
